@@ -41,6 +41,14 @@ def keyAppend (a b : Nat) : Nat := a * 256 ^ keyLen b + b
 /-- Does the string of key `k` end with the string of key `suf`? -/
 def keyEndsWith (k suf : Nat) : Bool := k % 256 ^ keyLen suf == suf && keyLen suf ≤ keyLen k
 
+/-- Does the string of key `k` start with the string of key `pre`? -/
+def keyStartsWith (k pre : Nat) : Bool :=
+  keyLen pre ≤ keyLen k && k / 256 ^ (keyLen k - keyLen pre) == pre
+
+/-- Does the string of key `k` contain the string of key `pat`? -/
+def keyContains (k pat : Nat) : Bool :=
+  (List.range (keyLen k + 1 - keyLen pat)).any fun i => (k / 256 ^ i) % 256 ^ keyLen pat == pat
+
 /-- Key of the string without its last `n` bytes. -/
 def keyDropEnd (k n : Nat) : Nat := k / 256 ^ n
 
@@ -122,6 +130,26 @@ structure FnSig where
       fn's own parameters passed through unvalidated, at least one of them not `self`
       (the string is for display only) -/
   forwardsToUnsafe : Option String
+  /-- bounds in force — inline bounds and where-clauses of the fn and of its impl/trait block —
+      as (key of the bounded type, key of the bound): `(key% "T", key% "Copy")`,
+      `(key% "B", key% "Backend")`, `(key% "S", key% "?Sized")`, `(key% "T", key% "'static")`;
+      bounds with arguments keep them (`AsRef<str>`) -/
+  bounds : List (Nat × Nat)
+  /-- the same, for display -/
+  boundsShown : String
+  /-- key of the ELEMENT type parameter (first type argument of the self type, for the types of
+      `vecs::`), 0 if none -/
+  elemParam : Nat
+  /-- `some primitive`: the body — or a fn of the same type / a free fn of the crate that it
+      calls — duplicates bits with a raw copy (`copy_nonoverlapping`, `ptr::copy`, `copy_from*`,
+      `copy_to*`, `read*`, `assume_init_read`, `transmute_copy`); display only -/
+  dupBits : Option String
+  /-- the fn reads from a source that stays alive: `&self`, or a parameter that is a shared
+      reference to something mentioning the element type / `Self` (`&[T]`, `&Self`) -/
+  sharedSrc : Bool
+  /-- the fn produces owned elements: returns `Self` / the element type by value, or takes
+      `&mut self` -/
+  producesOwned : Bool
   ins : List InRegion
   outs : List OutRegion
   outlives : List (Region × Region)
